@@ -77,6 +77,26 @@ Theorem C16_unrepaired_graphql_get_refuted : exists r rp,
 Proof. exact unrepaired_refuted. Qed.
 Print Assumptions C16_unrepaired_graphql_get_refuted.
 
+(* header VALUE SLICES (the backing arrays `h[k][i] = v` writes) are objects of their own:
+   CloneRequestHeaders copies the elements, so a shadow-side stage that rewrites header values
+   in place stays inside the discipline (hence, by C16_noninterference, is invisible to the
+   regular pipeline under every schedule) ... *)
+Theorem C16_inplace_header_writer_ok :
+  shadow_disciplined (map Acc (inplace_header_writer (sh FHdr) (sh FHdrVals))) = true /\
+  race_free hobj_eqb (map Acc (inplace_header_writer (sh FHdr) (sh FHdrVals))) = true.
+Proof. exact inplace_writer_disciplined. Qed.
+Print Assumptions C16_inplace_header_writer_ok.
+
+(* ... whereas with a clone that only copies the map (value slices aliased) the same stage
+   breaks the discipline and the call has a conflicting unordered pair *)
+Theorem C16_shared_value_slices_refuted : exists r rp,
+  regular_disciplined rp = true /\
+  shadow_disciplined (map Acc (inplace_header_writer (sh FHdr) (cl FHdrVals))) = false /\
+  race_free hobj_eqb
+    (map Acc (aliasing_clone_accs r) ++ Fork (map Acc (inplace_header_writer (sh FHdr) (cl FHdrVals))) :: rp)%list = false.
+Proof. exact aliasing_clone_refuted. Qed.
+Print Assumptions C16_shared_value_slices_refuted.
+
 (* ---- full copy ---- *)
 (* CloneRequest: the argument keeps its contents (so the regular pipeline reads the whole
    body), the clone has the same contents: method, headers, query, params, body *)
